@@ -533,7 +533,11 @@ fn worker<H: Harness + ?Sized>(sh: &Shared<'_, H>) -> Local {
         let r = exec_once(sh.h, prefix, sh.cfg, false, None);
         if r.trace.len() < plen {
             let bugmsg = matches!(&r.verdict, Err(m) if m.starts_with("BUG: "));
-            if !bugmsg {
+            // (the code under test may carry state from one execution to the next - a static counter,
+            // a process-wide budget: a prefix that ends early this time WITH a violation is reported
+            // as that violation, see `violation_beats_nondeterminism`)
+            let ended_in_violation = sh.cfg.violation_beats_nondeterminism && (matches!(&r.verdict, Ok(Verdict::Fail(_))) || matches!(&r.verdict, Err(m) if !m.starts_with("BUG: ")) || !r.soft.is_empty());
+            if !bugmsg && !ended_in_violation {
                 loc.errors.push(format!(
                     "replay divergence: execution ended after {} choice points but the prefix has {plen} ({:?})",
                     r.trace.len(),
